@@ -163,7 +163,7 @@ var c13BadPatterns = []string{
 	"/{a:[z-a]}", "/{a:x{3,1}}", "/{a:\\}", "/{ a : \\d+ }", "/{a:b}{c}", "/{a}-{b}", "/[x]", "[/x]", "/a.{ext:(?:js|css)}",
 	"/{a:.+\\.(?:css|js)}", "/a[.html]", "/{all}", "/files/{f:.*}", "/{a:x|y}", "/{a:[^/]+}", "/{id:[0-9]{1,3}}", "/*", "/a*", "/a+b",
 }
-var c13BadMethods = []string{"DEL", "P", "OPT", "", " ", "get", " post ", "GET,POST", "FOO", "PATCH", "GETX", "TRACE"}
+var c13BadMethods = []string{"DEL", "P", "OPT", "", " ", "get", " post ", "GET,POST", "FOO", "PATCH", "GETX", "TRACE", "po\u017ft", "option\u017f", "G\u00cbT", "\u017f", "connect\u0131"}
 var c13HostilePaths = []string{"", " ", "  ", "\t", "/", "//", "///", "/ /", " /", "/ ", "\t/\n", " // ", "/\xff", "\xfe\xff", "/a\x00b", "/%zz", strings.Repeat("/a", 40), "/u/ab", "/u/12",
 	"/p/x/v1", "/x/a", "/a.js", "/a.html", "/a", "/ab", "/x", "/x/y", "/x/y/z", " /u/1 ", "/u/1/", "/files/a/b", "/é/ü", "/a b", "/{a}", "/[x]"}
 var c13HostileMethods = []string{"GET", "get", "", " ", "HEAD", "OPTIONS", "G/ET", "GET/", "\xff", "PUT"}
